@@ -5,10 +5,49 @@ SRC = "harness/C05/h_p2bin.c"
 ERRNO = ["-include", "$VERIF/include/verif_errno_shim.h"]
 GROUPS = []
 for gran in (1, 2, 4):
-  GROUPS.append(G("pb_ProcessFile_data_g%d" % gran, SRC, "h_ProcessFile_data", enforce=[], dfcc=False, defs=["-DVERIF_GRAN=%d" % gran], link=["toolutils.c", "as_endian.c", "bpemu.c"], loops=True,
-                  unwind=12, unwindset=["ProcessFile.0:3"], timeout=600, cflags=ERRNO, functions=["ProcessFile"], object_bits=12, split=12, flags=["--slice-formula"],
+  GROUPS.append(G("pb_ProcessFile_data_g%d" % gran, SRC, "h_ProcessFile_data", enforce=[], dfcc=False, drop_unused=True, defs=["-DVERIF_GRAN=%d" % gran], link=["toolutils.c", "as_endian.c", "bpemu.c"], loops=True,
+                  unwind=12, unwindset=["@ProcessFile:ProcessFile:last:3"], timeout=600, cflags=ERRNO, functions=["ProcessFile"], object_bits=12, split=16, flags=["--slice-formula"], tier="thorough" if gran == 1 else "quick",
                   bounded="input = one data record (any CPU, segment, granularity 1/2/4, address, length; copy loop under loop contract) + end record; byte mode ALL"))
-TRUSTED_BASE = ["stubs/gfile.c ghost stdio model", "FilterOK and AddChunk observed/oracle (FilterOK is under contract in C07)"]
-ASSUMPTIONS = ["record addresses do not wrap around 2^32", "granularity byte is 1, 2 or 4"]
-NOT_COVERED = []
-EXPLANATION = ""
+for gran, m in ((1, 0), (2, 0), (4, 0), (1, 2), (2, 8), (4, 5), (1, 1), (1, 7), (2, 3)):
+  GROUPS.append(G("pb_OpenTarget_g%d_%s" % (gran, ["ALL", "EVEN", "ODD", "BYTE0", "BYTE1", "BYTE2", "BYTE3", "WORD0", "WORD1"][m]), SRC, "h_OpenTarget", enforce=[], dfcc=False, drop_unused=True,
+                  defs=["-DVERIF_GRAN=%d" % gran, "-DVERIF_LANE_MODE=%d" % m], tier="quick" if m in (0, 2, 8) else "thorough", link=["toolutils.c", "as_endian.c", "bpemu.c"], loops=True,
+                  unwind=6, timeout=600, cflags=ERRNO, functions=["OpenTarget"], object_bits=12, flags=["--slice-formula"]))
+GROUPS.append(G("pb_CloseTarget_small", "harness/C05/h_p2bin_small.c", "h_CloseTarget", enforce=[], dfcc=False, drop_unused=True, link=["toolutils.c", "as_endian.c", "bpemu.c"],
+                unwind=18, timeout=600, cflags=ERRNO, functions=["CloseTarget"], object_bits=12, flags=["--slice-formula"],
+                bounded="image of at most 16 bytes including the header (every byte modelled; checksum and header loops unwound)"))
+GROUPS.append(G("pb_MeasureFile", SRC, "h_MeasureFile", enforce=[], dfcc=False, drop_unused=True, link=["toolutils.c", "as_endian.c", "bpemu.c"], loops=False,
+                unwind=12, unwindset=["@MeasureFile:MeasureFile:last:3"], timeout=600, cflags=ERRNO, functions=["MeasureFile"], object_bits=12, flags=["--slice-formula"], split=4,
+                bounded="input = one data record (any CPU, segment, granularity, address, length) + end record"))
+MODES = ["ALL", "EVEN", "ODD", "BYTE0", "BYTE1", "BYTE2", "BYTE3", "WORD0", "WORD1"]
+QUICK_LANES = {(2, 1), (2, 8), (4, 4)}
+for gran in (1, 2, 4):
+  for m in range(1, 9):
+    GROUPS.append(G("pb_ProcessFile_lane_g%d_%s" % (gran, MODES[m]), SRC, "h_ProcessFile_lane", enforce=[], dfcc=False, drop_unused=True,
+                    defs=["-DVERIF_GRAN=%d" % gran, "-DVERIF_LANE_MAXLEN=8", "-DVERIF_LANE_MODE=%d" % m], link=["toolutils.c", "as_endian.c", "bpemu.c"], loops=False,
+                    unwind=10, unwindset=["@ProcessFile:ProcessFile:0:2", "@ProcessFile:ProcessFile:1:9", "@ProcessFile:ProcessFile:last:3"], timeout=600, cflags=ERRNO, functions=["ProcessFile", "SelectedCount", "SelectedBelow"], object_bits=12,
+                    split=5, mem=8, flags=["--slice-formula", "--arrays-uf-always"], tier="quick" if (gran, m) in QUICK_LANES else "thorough",
+                    bounded="-m %s, granularity %d: one data record of at most 8 bytes inside the window + end record (copy and lane loops unwound)" % (MODES[m], gran)))
+GROUPS.append(G("pb_SelectedCount", SRC, "h_SelectedCount", enforce=[], dfcc=False, drop_unused=True, link=["toolutils.c", "as_endian.c", "bpemu.c"], loops=False,
+                unwind=6, timeout=600, cflags=ERRNO, functions=["SelectedCount", "SelectedBelow"], object_bits=12, flags=["--slice-formula"]))
+TRUSTED_BASE = ["stubs/gfile.c ghost stdio model (exact position/length, one witness byte, pass-through cell, uniform-buffer ghost for memset)",
+                "stubs/gfile_small.c (bounded model with every byte, CloseTarget only)", "fopen creates/truncates the target (harness sets length 0)",
+                "FilterOK and AddChunk observed/oracle (FilterOK is under contract in C07; AddChunk / overlap warning not under contract)",
+                "message catalogue, printf/fprintf replaced by no-op monitors"]
+ASSUMPTIONS = ["record addresses do not wrap around 2^32; byte addresses of the window fit 32 bits", "granularity byte is 1, 2 or 4",
+               "the image is smaller than 2 GiB (file positions are long)", "main()'s call order (MeasureFile over all inputs, OpenTarget, ProcessFile over all inputs, CloseTarget) is not under contract"]
+NOT_COVERED = ["main (option parsing, call order)", "AddChunk/overlap warning (chunks.c)", "CMD_ByteMode table", "more than one data record per file (record loop unwound for one data + end record)", "EraseFile"]
+EXPLANATION = ("ProcessFile's copy loop is closed by a loop contract (any record length); the record loop is unwound for one data record; lane modes are "
+               "bounded stand-ins on the real 4 KiB transfer buffer (records of at most 8 bytes).")
+MANIFEST = dict(
+    category="proof",
+    text="p2bin.c on a ghost stdio model with a witness byte: ProcessFile (mode ALL, granularity 1/2/4, any window, offset, header size): the -f filter sees the "
+         "CPU id; exactly the part of a selected record inside the window is copied, byte k of it to offset header + (address - start) * granularity + lane, "
+         "copy loop closed by a loop contract (any length); bytes outside are untouched, the image length never changes, unselected records write nothing, "
+         "the input is consumed to the next record. OpenTarget: image = zero header + exactly the number of selected byte addresses of the window, all fill "
+         "value (fill loop under loop contract). MeasureFile: automatic range = lowest/highest used address, image granularity = largest seen. SelectedCount "
+         "against a closed form for all nine -m modes, all 32-bit arguments. Bounded: -m lane placement on records <= 8 bytes; CloseTarget (-s checksum sums to "
+         "zero, entry-address header byte order) on images <= 16 bytes.",
+    note="Bounded groups are listed in the evidence and not counted as proved. Not under contract: main's call order, AddChunk (overlap warning), multi-record files. "
+         "Trusted: stubs/gfile.c, stubs/gfile_small.c. Three defects found and repaired (see known_findings.json: -f on the wrong byte, lane misplacement, MaxGran with explicit range).",
+    technique="contract-based deductive verification: CBMC 6.11 loop contracts (goto-instrument --apply-loop-contracts, non-DFCC) and harness-level pre/postconditions on the real p2bin.c; bounded unwinding for the lane/checksum stand-ins",
+)
